@@ -248,13 +248,13 @@ def rule_samepath(ctx: Ctx, rule: str = "C12.same-path"):
               f"{mod.rel}::SPECS_SAFE", f"SPECS_SAFE = {show(mod.assigns.get('SPECS_SAFE'))}")
 
 
-def rule_dedup(ctx: Ctx):
+def rule_dedup(ctx: Ctx, rule: str = "C12.dedup"):
     rep = ctx.rep
     bk = ctx.fn("Listener.build_key")
     for p in ctx.paths(bk, inline=None, exc_edges="none"):
         v = p.value
         ok = p.kind == "return" and isinstance(v, ast.JoinedStr) and {show(x.value) for x in v.values if isinstance(x, ast.FormattedValue)} == {bk.params[1], "self.resolver_id"}
-        rep.check(ok, "C12.dedup", bk.loc(), "a builder key names the attribute and the provider", bk.key, f"return {show(v)}")
+        rep.check(ok, rule, bk.loc(), "a builder key names the attribute and the provider", bk.key, f"return {show(v)}")
     fo = ctx.fn("Listener.from_obj")
     n = 0
     for p in ctx.paths(fo, inline=None, exc_edges="none"):
@@ -264,11 +264,59 @@ def rule_dedup(ctx: Ctx):
         if isinstance(v, ast.Call) and show(v.func) == "cls":
             n += 1
             rid = show(v.args[2]) if len(v.args) > 2 else show(next((k.value for k in v.keywords if k.arg == "resolver_id"), None))
-            rep.check(rid == f"str(id({fo.params[1]}))" and show(v.args[0]) == fo.params[1], "C12.dedup", fo.loc(),
+            rep.check(rid == f"str(id({fo.params[1]}))" and show(v.args[0]) == fo.params[1], rule, fo.loc(),
                       "the provider id in the key is id(obj): the same object attached twice gives the same keys, two objects never do", fo.key,
                       f"return {show(v)}")
-    rep.floor("C12.dedup", "constructing paths of Listener.from_obj", n, 1)
-    c02.rule_once(ctx, rule="C12.dedup")
+    rep.floor(rule, "constructing paths of Listener.from_obj", n, 1)
+    # keys of callables that belong to no provider must identify the callable, not only its name
+    sc = ctx.fn("Listeners._search_callable")
+    n_k = 0
+    for p in ctx.paths(sc, inline=None, exc_edges="none", unroll=1):
+        for y in p.of("yield"):
+            t = expand1(y.term, p.events)
+            if isinstance(t, ast.Tuple) and isinstance(t.elts[0], ast.JoinedStr):
+                parts = [show(x.value) for x in t.elts[0].values if isinstance(x, ast.FormattedValue)]
+                n_k += 1
+                ok = any(x.startswith("id(") or x.endswith(".func") or x.endswith("__code__") for x in parts)
+                rep.check(ok, rule, y.loc(), "the key of a callable bound to no provider contains the callable's identity "
+                          "(two lambdas or same-named functions in one group are different callbacks)", sc.key, norm_stmt(y.node), parts=parts)
+    rep.floor(rule, "literal keys yielded by _search_callable", n_k, 1)
+    # the key of a composed guard is built from its operands' keys (which carry the provider ids), never from names
+    sp = ctx.p.module("statemachine/spec_parser.py")
+    n_c = 0
+    for f in sp.all_functions:
+        for node in own_nodes(f.node):
+            if isinstance(node, ast.Assign) and any(isinstance(t, ast.Attribute) and t.attr == "unique_key" for t in node.targets):
+                n_c += 1
+                v = node.value
+                txt = show(v)
+                uses_operand_keys = False
+                if isinstance(v, ast.Call) and show(v.func) == "_unique_key":
+                    uses_operand_keys = True
+                if isinstance(v, ast.JoinedStr):
+                    for x in v.values:
+                        if isinstance(x, ast.FormattedValue) and isinstance(x.value, ast.Name):
+                            # a local that was read from `getattr(<operand>, "unique_key", ...)`
+                            for a in own_nodes(f.node):
+                                if isinstance(a, ast.Assign) and any(isinstance(t, ast.Name) and t.id == x.value.id for t in a.targets) and "unique_key" in show(a.value):
+                                    uses_operand_keys = True
+                const_only = f.qualname.startswith("build_constant")
+                rep.check(uses_operand_keys or const_only, rule, f.loc(node),
+                          "the de-duplication key of a composed guard is derived from its operands' keys (provider identity is kept)", f.key, norm_stmt(node),
+                          value=txt)
+    rep.floor(rule, "unique_key assignments in spec_parser", n_c, 5)
+    # a provider's key must be the same whether it is attached alone or together with others
+    tk = ctx.fn("Listeners._take_callback")
+    for p in ctx.paths(tk, inline=None, exc_edges="none", unroll=2):
+        its = [e for e in p.events if e.kind == "iter" and e.x.get("loop") == "for"]
+        if len(its) >= 2 and p.kind == "return":
+            v = expand1(p.value, p.events)
+            if isinstance(v, ast.Call) and show(v.func) in ("reduce", "functools.reduce"):
+                rep.violation(rule, tk.loc(), "a guard name with several providers is registered as ONE callable under a combined key, so attaching one "
+                              "of those providers again later is not recognised as a duplicate (its guard is evaluated twice)", tk.key,
+                              "return reduce(custom_and, callbacks)")
+                break
+    c02.rule_once(ctx, rule=rule)
 
 
 def rule_own(ctx: Ctx, rule: str = "C12.own"):
